@@ -46,6 +46,11 @@ PROP_CLASSES = {
 }
 
 
+def _scratch_root():
+    from . import kernel as K_
+    return K_.scratch_root()
+
+
 def main(prop, tier):
     t0 = time.monotonic()
     budget, max_runs, per_run, det_pairs = TIERS[tier]
@@ -53,7 +58,7 @@ def main(prop, tier):
         budget = float(os.environ['VERIF_BUDGET'])
     base = D.base_seed()
     findings = D.load_findings()
-    refdir = tempfile.mkdtemp(prefix='dsim-ref-', dir='/dev/shm')
+    refdir = tempfile.mkdtemp(prefix='dsim-ref-', dir=_scratch_root())
     os.environ['DSIM_REFDIR'] = refdir
     batch = None
     try:
